@@ -32,6 +32,17 @@ def optStr? (v : Option Val) : Except Unit (Option String) :=
   | some (.str s) => .ok (some s)
   | some _ => .error ()
 
+/-- the `groups` value of the MAP form of a call / jump / switch-case configuration, as `instruction_from_dict`
+    hands it on: `if isinstance(groups, str): groups = [groups]`, anything else goes to
+    `run_step_groups(groups=…)` as it is, which only iterates it (`for step_group in groups`) - so a list
+    and a TUPLE of names (what `groups: !py ('a', 'b' + i)` or `groups: '{names}'` evaluate to) name the same
+    groups, in order. (Only in the map form: a tuple given as the whole configuration is a ContextError.) -/
+def groupNames? (g : Val) : Option (List String) :=
+  match g with
+  | .str x => some [x]
+  | .tuple xs => strList? (.list xs)
+  | other => strList? other
+
 /-- `cof.instruction_from_dict`: build the instruction from the *formatted* config. -/
 def instructionFromVal (cfg : Val) (key : String) (original : Val) : Except (String × String) CofCfg :=
   match cfg with
@@ -45,10 +56,7 @@ def instructionFromVal (cfg : Val) (key : String) (original : Val) : Except (Str
     | some g =>
       if !g.truthy then .error ("pypyr.errors.KeyInContextHasNoValueError", "~" ++ key ++ ".groups must have a value")
       else
-        let groups? : Option (List String) := match g with
-          | .str x => some [x]
-          | other => strList? other
-        match groups? with
+        match groupNames? g with
         | none => .error ("OutOfDomain", "group names must be strings")
         | some gs =>
           match optStr? (dictGet? kvs (.str "success")) with
